@@ -542,3 +542,31 @@ async fn an_empty_where_block_is_one_solution_not_zero() {
     let all = ok(&nexus, r#"FIND(COUNT(?c)) WHERE { ?c CONCEPT {} }"#).await;
     assert_eq!(all, json!([4]));
 }
+
+#[tokio::test]
+async fn naming_an_id_does_not_waive_the_other_constraints() {
+    // An id lookup skips the indexes, so whatever else the pattern says has to
+    // be decided against the element it loads — otherwise `{id: "C-1", state:
+    // "archived"}` matches an active element.
+    let nexus = seeded("id_and_more").await;
+    let alice: String = {
+        let found = ok(&nexus, r#"FIND(?c) WHERE { ?c CONCEPT {name: "Alice"} }"#).await;
+        rows(&found)[0]["id"].as_str().unwrap().to_string()
+    };
+    for (constraint, matches) in [
+        (r#"name: "Alice""#, true),
+        (r#"name: "Bob""#, false),
+        (r#"type: "Person""#, true),
+        (r#"type: "Preference""#, false),
+        (r#"state: "active""#, true),
+        (r#"state: "archived""#, false),
+    ] {
+        let found = ok(
+            &nexus,
+            &format!(r#"FIND(?c.name) WHERE {{ ?c CONCEPT {{id: "{alice}", {constraint}}} }}"#),
+        )
+        .await;
+        let expected = if matches { vec![json!("Alice")] } else { vec![] };
+        assert_eq!(rows(&found), &expected, "{constraint}");
+    }
+}
